@@ -192,6 +192,20 @@ def construct(st, cls, args, kwargs, n=None):
         raise Undecided('no contract for %s.__init__' % cls)
     ref = st.new_ref(cls)
     self_v = Val(T.TRef(cls), ref)
+    # a new instance has no attributes yet: reference-typed fields start as null (not as arbitrary aliases)
+    seen = set()
+    for cn in R.mro(cls):
+        ci2 = R.CLASSES.get(cn)
+        if ci2 is None:
+            continue
+        for fname, fty in ci2.fields.items():
+            if fname in seen:
+                continue
+            seen.add(fname)
+            if fty.is_reflike:
+                key = '%s.%s' % (cn, fname)
+                arr = st.H(key, z3.ArraySort(I, T.sort_of(fty)))
+                st.heap[key] = z3.Store(arr, ref, z3.IntVal(0))
     call_contract(st, c, [self_v] + args, kwargs, n)
     return self_v
 
@@ -308,9 +322,6 @@ def havoc(st, targets):
                     key = '%s.%s' % (cn, fname)
                     arr = st.H(key, z3.ArraySort(I, T.sort_of(ty)))
                     st.heap[key] = z3.Store(arr, r, st.fresh(T.sort_of(ty), 'hv_' + fname))
-                    if ty.kind in ('list', 'set', 'dict'):
-                        cur = st.read_field(r, cn, fname)
-                        havoc_contents(st, ty, cur.z)
 
 
 def havoc_contents(st, ty, ref):
@@ -1068,6 +1079,25 @@ def bi_py_int_val(st, args, kw):
     return E.mk_int(z3.Function('py_int_val', z3.StringSort(), z3.IntSort())(args[0].z))
 
 
+def bi_py_join_seq(st, args, kw):
+    sep, items = args
+    s, et = B.seq_of(st, items)
+    f = z3.Function('py_join_seq_' + T.sort_name(T.sort_of(et)), z3.StringSort(),
+                    z3.ArraySort(I, T.sort_of(et)), I, z3.StringSort())
+    return Val(sep.t, f(sep.z, s.arr, s.n))
+
+
+def bi_subseq(st, args, kw):
+    """subseq(l, lo, hi) == l[lo:hi] (Python slice semantics, the same terms the code's slicing produces)"""
+    v, lo, hi = args
+    was = st.spec
+    st.spec = True
+    try:
+        return B.get_slice(st, v, lo, hi)
+    finally:
+        st.spec = was
+
+
 def bi_mkseq(st, args, kw):
     a, n = args
     return Val(T.TSeq(a.t.args[1]), SeqV(a.z, n.z))
@@ -1125,7 +1155,7 @@ def bi_dict(st, args, kw):
 
 
 _BUILTINS = {
-    'mkseq': bi_mkseq, 'py_int_ok': bi_py_int_ok, 'py_int_val': bi_py_int_val, 'substr': bi_substr, 'str_index': bi_str_index, 'py_lower': bi_py_lower, 'substr_after_last': bi_substr_after_last, 'pure_IO_encrypted_of': bi_pure_IO_encrypted_of, 'str_prefix': bi_str_prefix, 'nraised': bi_nraised, 'allocated': bi_allocated, 'ncalls': bi_ncalls, 'call_arg': bi_call_arg,
+    'mkseq': bi_mkseq, 'py_join_seq': bi_py_join_seq, 'subseq': bi_subseq, 'py_int_ok': bi_py_int_ok, 'py_int_val': bi_py_int_val, 'substr': bi_substr, 'str_index': bi_str_index, 'py_lower': bi_py_lower, 'substr_after_last': bi_substr_after_last, 'pure_IO_encrypted_of': bi_pure_IO_encrypted_of, 'str_prefix': bi_str_prefix, 'nraised': bi_nraised, 'allocated': bi_allocated, 'ncalls': bi_ncalls, 'call_arg': bi_call_arg,
     'call_result': bi_call_result, 'trig': bi_trig, 'same': bi_same, 'is_list': bi_is_list, 'store': bi_store, 'dict_has': bi_dict_has,
     'dict_get': bi_dict_get, 'dict_keys': bi_dict_keys, 'dict': bi_dict, 'dict_index': bi_dict_index,
     'len': bi_len, 'set': bi_set, 'list': bi_list, 'tuple': bi_tuple, 'min': bi_min, 'max': bi_max,
